@@ -13,7 +13,7 @@ import (
 func init() { Registry["C06"] = c06 }
 
 func c06(c *Ctx) {
-	c.R.Explanation = "C06: only the range clause (every curve evaluates to an integer in 0..255) is decided, by the symbolic range analysis (E4) with assume/guarantee on the interface SpeedCurve.Evaluate: at call sites (members of a function curve) result #0 is *assumed* in [0,255]; for every implementation each nil-error return is *proved* in [0,255] per incoming edge of the result (one obligation per curve form), which makes arbitrarily nested function curves an induction instead of an unrolling. Proved forms: linear min/max (saturation edges, n/(X-Y) rule, *255, truncation), PID (util.Coerce(.,0,1) evaluated in place, *255), function types sum (monotone loop-carried sum, math.Min(255,.)), difference (non-increasing after the first member, math.Max(0,.)), minimum, maximum, and the unknown-type default. Not decided, by design, and listed as such: agreement with the documented function (numerical); delta and average (need the relational facts dmax >= dmin and total <= 255*n); the steps form (convexity of a loop-carried interpolation needs a relational loop invariant)."
+	c.R.Explanation = "C06: only the range clause (every curve evaluates to an integer in 0..255) is decided, by the symbolic range analysis (E4) with assume/guarantee on the interface SpeedCurve.Evaluate: at call sites (members of a function curve) result #0 is *assumed* in [0,255]; for every implementation each nil-error return is *proved* in [0,255] per incoming edge of the result (one obligation per curve form), which makes arbitrarily nested function curves an induction instead of an unrolling. Proved forms: linear min/max (saturation edges, n/(X-Y) rule, *255, truncation), PID (util.Coerce(.,0,1) evaluated in place, *255), function types sum (monotone loop-carried sum, math.Min(255,.)), difference (non-increasing after the first member, math.Max(0,.)), minimum, maximum, and the unknown-type default. R-members = every member evaluation of a function curve is performed on the object looked up, in that evaluation, for an element of Config.Function.Curves (the aggregate covers exactly the configured members). Not decided, by design, and listed as such: agreement with the documented function (numerical); delta and average (need the relational facts dmax >= dmin and total <= 255*n); the steps form (convexity of a loop-carried interpolation needs a relational loop invariant)."
 	c.R.Assumptions = append(c.R.Assumptions,
 		"sensor values are finite, non-NaN (the property excludes the rest: C08) so negated float comparisons behave as on reals",
 		"linear curves have min < max (hypothesis of the n/(X-Y) rule)",
@@ -122,6 +122,32 @@ func c06(c *Ctx) {
 		}
 	}
 	c.R.Require("R-range", 7)
+	// R-members: a function curve aggregates exactly its configured members: every member evaluation in
+	// Evaluate is performed on an object looked up (in this activation) for an element of Config.Function.Curves
+	for _, fn := range c.ImplMethods(PkgCurves, "SpeedCurve", "Evaluate") {
+		fk := c.FK(fn)
+		tbm := ir.NewTB(c.P.IsRepoFunc, c.P.FuncKey)
+		n, bad := 0, ""
+		Calls(fn, func(cc ssa.CallInstruction) {
+			if !ir.IsInvoke(cc, PkgCurves, "SpeedCurve", "Evaluate") {
+				return
+			}
+			n++
+			t := tbm.Of(cc.Common().Value, nil)
+			if !strings.Contains(t.String(), "field:Curves(field:Function") {
+				bad = "a member is evaluated that is not looked up from Config.Function.Curves in this evaluation (" + t.String() + ") at " + c.P.Pos(cc.Pos())
+			}
+		})
+		if n == 0 {
+			continue
+		}
+		if bad != "" {
+			c.R.Bad("R-members", fk, fk, c.P.Pos(fn.Pos()), bad+": the aggregate may cover only a subset (or a stale set) of the configured members")
+		} else {
+			c.R.Ok("R-members", fk, fk, c.P.Pos(fn.Pos()), "every evaluated member is the registry object of an element of Config.Function.Curves, looked up in this evaluation")
+		}
+	}
+	c.R.Require("R-members", 1)
 	// the value stored for API/metrics (CurrentValue) is the returned one
 	for _, fn := range c.ImplMethods(PkgCurves, "SpeedCurve", "Evaluate") {
 		fk := c.FK(fn)
